@@ -2,7 +2,9 @@ package props
 
 import (
 	"fmt"
+	"github.com/aml-org/amf-custom-validator/internal/validator"
 	"github.com/aml-org/amf-custom-validator/pkg/config"
+	"regexp"
 	"sort"
 	"strings"
 	"sync"
@@ -59,7 +61,7 @@ func getObs(obs map[string]*c02obs, k string) *c02obs {
 func C02(e *core.Env) {
 	res := e.Res
 	res.Rule = "cases = (path, graph, focus node); paths: every path with <= 2 leaves over ex.a ex.b ex.c forward/inverse and @type plus a seeded sample with 3-4 (quick) / all with 3 and a sample with 4-5 (thorough), plus every 3-part (and a sample of 4-part) sequence whose parts are a predicate, a parenthesised sequence or a parenthesised alternative; for every third path and all of the latter the three observing constraints are ALSO written under one path key and must see the same values; " +
-		"a history (paths over the built-in prefix core. before / after a profile that rebinds core was compiled);the same paths and graph with the vocabulary under five namespaces that do not end in `#` (URN, query-style, `/`, tag:), report renamed back; the same profile validated while 4 goroutines compile another profile in a loop; graphs: hand-made (cycle, diamond, self loop, literal and dangling link mid-path) + seeded random; observables: strings of reached values, number of distinct values, nodes reached for nested; " +
+		"a history (paths over the built-in prefix core. before / after a profile that rebinds core was compiled);the same paths and graph with the vocabulary under five namespaces that do not end in `#` (URN, query-style, `/`, tag:), report renamed back; the same profile validated while 4 goroutines compile another profile in a loop; graphs: hand-made (cycle, diamond, self loop, literal and dangling link mid-path) + seeded random; observables: strings of reached values, number of distinct values, nodes reached for nested; for every 7th (quick) / every (thorough) path the text of the generated path rules (values mode and nodes mode), clause by clause and line by line, against PathGen.path_rule_lines; " +
 		"non-trivial = the path reaches at least one value from that node; distinct by (path, graph, node)"
 	leaves := []PExp{Pr("ex.a", false), Pr("ex.b", false), Pr("ex.c", false), Pr("ex.a", true), Pr("ex.b", true), Pr("ex.c", true), Pr("@type", false)}
 	paths := []PExp{}
@@ -346,6 +348,21 @@ func C02(e *core.Env) {
 		res.Case("history|builtin-prefix-paths", strings.Contains(before, "\"result\""))
 		res.Count("stream=history")
 	}
+	// the TEXT of the path rules: for a sample of the paths, the clauses of the rules in the real generated module (values mode
+	// for `in`, nodes mode for `nested`) against PathGen.path_rule_lines, line by line - the model whose every clause is proved safe
+	{
+		stepR := e.Pick(7, 1)
+		for i, pth := range paths {
+			if i%stepR != 0 && i < explicitFrom {
+				continue
+			}
+			if !pathRuleText(e, res, pth) {
+				break
+			}
+			res.Case("rule-text|"+pth.Canon(), true)
+			res.Count("stream=path-rule-text")
+		}
+	}
 	// namespaces: the same graph and the same paths with the vocabulary moved to namespaces that do not end in `#`
 	// (a URN, a query-style namespace, a `/` namespace): after renaming the namespace back the report is the same
 	{
@@ -425,4 +442,82 @@ func C02(e *core.Env) {
 	sort.Strings(kinds)
 	res.Distribution["paths"] = len(paths)
 	res.Distribution["graphs"] = len(graphs)
+}
+
+var rePathRuleHead = regexp.MustCompile(`^(gen_path_set_rule_\d+)\[nodes\] \{$`)
+
+// pathRuleText: the clauses of the path rules in the real generated module for one path (values mode for `in`, nodes mode for
+// `nested`) against PathGen.path_rule_lines, line by line. false = stop (the driver is gone).
+func pathRuleText(e *core.Env, res *core.Result, pth PExp) bool {
+	reHead := rePathRuleHead
+	ps := yamlQuote(pth.Canon())
+	profile := ProfileHeader + "violation:\n  - vin\n  - vnest\nvalidations:\n" +
+		fmt.Sprintf("  vin:\n    targetClass: ex.T\n    propertyConstraints:\n      %s:\n        in: [ a ]\n", ps) +
+		fmt.Sprintf("  vnest:\n    targetClass: ex.T\n    propertyConstraints:\n      %s:\n        nested:\n          propertyConstraints:\n            ex.leaf:\n              minCount: 1\n", ps)
+	unit, gerr := validator.GenerateRego(profile, false, nil)
+	if gerr != nil || unit == nil {
+		res.Violate("impl-violates-property", "a profile made of an enumerated path is not translated: "+fmt.Sprint(gerr), map[string]any{"profile": profile})
+		return true
+	}
+	// the set rules of the module whose first clause starts from x (the rule of ex.leaf inside nested starts from y)
+	rules := [][][]string{}
+	var cur [][]string
+	in := false
+	for _, raw := range strings.Split(unit.Code, "\n") {
+		line := strings.TrimSpace(raw)
+		switch {
+		case reHead.MatchString(line):
+			in, cur = true, [][]string{{}}
+		case in && line == "} {":
+			cur = append(cur, []string{})
+		case in && line == "}":
+			in = false
+			rules = append(rules, cur)
+		case in:
+			cur[len(cur)-1] = append(cur[len(cur)-1], line)
+		}
+	}
+	enc := func(r [][]string) string {
+		parts := []string{}
+		for _, c := range r {
+			parts = append(parts, strings.Join(c, " ; "))
+		}
+		return strings.Join(parts, " || ")
+	}
+	ans, derr := e.Driver.Eval(sx.L(sx.A("c02"), sx.A("rule-lines"), pth.Expanded().Sx(), sx.S("x")))
+	if derr != nil {
+		res.Violate("harness-error", derr.Error(), map[string]any{"no_failing_input_found": true, "broken": "driver"})
+		return false
+	}
+	model := []string{}
+	for _, m := range ans.List {
+		cls := [][]string{}
+		for _, c := range m.List {
+			ls := []string{}
+			for _, l := range c.List {
+				ls = append(ls, l.Text())
+			}
+			cls = append(cls, ls)
+		}
+		model = append(model, enc(cls))
+	}
+	seen := map[string]bool{}
+	for _, r := range rules {
+		if len(r) == 0 || len(r[0]) == 0 || !strings.HasPrefix(r[0][0], "init_x_") {
+			continue
+		}
+		got := enc(r)
+		seen[got] = true
+		if got != model[0] && got != model[1] {
+			res.Violate("model-mismatch", "the text of a path rule for `"+pth.Canon()+"` differs from PathGen.path_rule_lines",
+				map[string]any{"no_failing_input_found": true, "broken": "correspondence PathGen.path_rule_lines vs generator/path.go", "path": pth.Canon(), "profile": profile,
+					"impl_rule": got, "model_values_rule": model[0], "model_nodes_rule": model[1]})
+		}
+	}
+	if !seen[model[0]] || !seen[model[1]] {
+		res.Violate("model-mismatch", "the generated module for `"+pth.Canon()+"` lacks a path rule that PathGen.path_rule_lines predicts",
+			map[string]any{"no_failing_input_found": true, "broken": "correspondence PathGen.path_rule_lines vs generator/path.go", "path": pth.Canon(), "profile": profile,
+				"model_values_rule": model[0], "model_nodes_rule": model[1], "impl_rules": sortedKeys(seen)})
+	}
+	return true
 }
